@@ -501,6 +501,13 @@ pub fn generate(batch_seed: u64, index: u64, prof: &Profile, worlds: &[WorldInfo
                 g.reach(other, t);
             }
         }
+        if f.op == Op::RawTrip && world.size == 0 && world.be_of(slot).resizable() && g.rng.chance(1, 2) {
+            // zero-sized elements: a capacity above isize::MAX elements is legal and must survive the trip
+            let mut c = g.make(Op::Cap, slot);
+            c.kind = if g.rng.chance(1, 2) { CAP_RESERVE } else { CAP_RESERVE_EXACT };
+            c.a = HUGE + ((g.len(slot) as u64 + g.rng.below(3)) & 0xff);
+            g.push(c);
+        }
         // the focus step
         let mut st = g.make(f.op, slot);
         st.kind = f.kind;
